@@ -12,14 +12,16 @@ PROP = dict(
     shard=25,
     harness_args=lambda tier, seed: ["--seed", str(seed), "--n", str(N[tier][0]), "--e2e", str(N[tier][1]),
                                      "--big", str(N[tier][2])],
-    rule="stage A: rule lists (1-12 rules, 1-3 axes, 1-3 boxes per rule, open-ended / degenerate / inverted / "
-         "out-of-range bounds, shared edge pools so that edges coincide, repeated regions and repeated substitution "
-         "maps, a rule without condition set now and then; plus 63, 64 and 65-70 rules) given to the real "
-         "overlay_feature_variations; stage E: designspaces with <rules> (1-3 axes with the default at the minimum, "
-         "middle or maximum, 1-9 rules) compiled by fontc::generate_font, GSUB decoded with read-fonts. The property "
-         "is evaluated on the implementation's output at every combination of: axis ends, 0, every box edge, one "
-         "step inside and outside every edge, and cell centres (sampled above 1500/800 locations per case). A case "
-         "is non-trivial when at least two rules fire together somewhere; distinct = distinct rule list.",
+    rule="stage E (first): designspaces with <rules> (1-3 axes, 0..1024 or 0..1000 so that part of the edges fall "
+         "between F2Dot14 grid points, default at the minimum, middle or maximum, 1-9 rules, 1-3 condition sets, "
+         "open-ended / out-of-range / degenerate / inverted ranges, shared edge pools, repeated regions and "
+         "substitution maps, now and then a rule without condition set or a range written as two conditions) "
+         "compiled by fontc::generate_font, GSUB decoded with read-fonts; fixed designs for each situation of "
+         "DESIGN.md 6.4; stage A: rule lists (1-12 rules, 1-3 axes, 1-3 boxes per rule; plus 63, 64 and 65-70 rules) "
+         "given to the real overlay_feature_variations. The property is evaluated on the implementation's output at "
+         "every combination of: axis ends, 0, every box edge (when it is a grid point), one grid step inside and "
+         "outside every edge, and cell centres (sampled above 800/1500 locations per case). A case is non-trivial "
+         "when at least two rules fire together somewhere; distinct = distinct rule list.",
     trusted_base=["Coq 8.16.1 kernel (coqc, vm_compute for case evaluation)",
                   "hand-written model FV.C16.Model tied to fontir::feature_variations, "
                   "fontbe::features::feature_variations and the fea-rs variations map by the correspondence run "
@@ -30,5 +32,9 @@ PROP = dict(
                  "IndexMap = insertion-ordered association list; HashSet/HashMap iteration orders that cannot reach "
                  "the output are not modelled",
                  "axis tags and glyph names are interned as numbers preserving their order",
-                 "write-fonts serialisation of GSUB is exercised end to end, not modelled"],
+                 "write-fonts serialisation of GSUB is exercised end to end, not modelled",
+                 "theorems about the compiled table are for edges and locations on the F2Dot14 grid (U = 16384); "
+                 "to_f2dot14 rounding of other edges is modelled and compared on every run but not covered by a theorem",
+                 "the conversion of a source condition set into an NBox (ufo2fontir / fontbe provider) is exercised "
+                 "end to end only; Glyphs bracket layers are not exercised"],
 )
